@@ -27,6 +27,8 @@ type qeBackend struct {
 	Name   string     `json:"name"`
 	Flags  []string   `json:"flags"`
 	Avail  bool       `json:"avail"` // false: peer is put into down state after loading
+	// Warn: an available peer is put into the warning state (one failed update, the data is still served)
+	Warn bool `json:"warn,omitempty"`
 	Error  string     `json:"error"`
 	Tables []*qeTable `json:"tables"`
 }
@@ -480,6 +482,9 @@ func qeLoad(ds *qeDataset, dir string) (lmd *Daemon, err error) {
 			peer.peerState.Set(PeerStatusDown)
 			peer.lastError.Set(bk.Error)
 			peer.data.Store(nil)
+		} else if bk.Warn {
+			peer.peerState.Set(PeerStatusWarning)
+			peer.lastError.Set(bk.Error)
 		}
 	}
 	_ = os.RemoveAll(dir)
